@@ -310,6 +310,29 @@ def nan_step_equivalence(ctx):
                               blank, [k for k in range(n) if k not in act], oa, ob, fn, fa[-1], fb[-1]))
 
 
+def clipped_by_retained(c, out, b):
+    """does the constraint store, as it stood before the critical goal's priority, hold bounds for the goal's
+    function key that exclude its target at the failing step?"""
+    gs = b["critical_goal"]
+    fk = gs.get("fk")
+    if not fk:
+        return False
+    prios = [s_["priority"] for s_ in out["snaps"]]
+    pr = int(Fraction(str(gs["prio"])))
+    if pr not in prios:
+        return False
+    snap = out["snaps"][prios.index(pr)]
+    nom = gp.fnum(gs.get("nominal", 1))
+    for key, lo, hi in snap["stores_before"][1 if gs["path"] else 0][b["member"]]:
+        if key != fk:
+            continue
+        k = b["step"] if len(lo) > 1 else 0
+        a, t = b["target"]
+        if (math.isfinite(a) and hi[k] * nom < a - 1e-9) or (math.isfinite(t) and lo[k] * nom > t + 1e-9):
+            return True
+    return False
+
+
 def conflict_probe(ctx):
     """a critical goal that contradicts what an earlier priority retained must make optimize() fail
     (or be met); it must not be clipped silently"""
@@ -551,6 +574,10 @@ def run(ctx):
             bad += [b for b in c02.attainment_check(c, out) if "violation_later" in b]
         if bad:
             sig = "critical/not-met" if "critical_goal" in bad[0] else "envelope/left"
+            if sig == "critical/not-met" and clipped_by_retained(c, out, bad[0]):
+                # the known finding: the bounds retained from an earlier priority on the same function key
+                # contradict the critical goal, which is then silently clipped
+                sig = "critical/conflict-clipped"
             ctx.violation(sig, {"case": c, "violations": bad[:5]},
                           what="a solution leaves the epsilon envelope / misses a critical goal: %s" % json.dumps(bad[0], default=str)[:300])
     if not replay:
